@@ -2,6 +2,8 @@ SPECIFICATION Spec
 CONSTANTS
   U <- UCov
   W = 4
+  SampleMod = 1
+  SampleSeed = 0
 VIEW view
 INVARIANTS TypeOK UniqueOwner Precedence OwnSettingsOnlyWhenOptedOut ResolvesToOwnerOrNone
 PROPERTY RejectedLeavesUnchanged
